@@ -256,7 +256,7 @@ def check_route(ctx) -> None:
     loops = [n for n in walk_local(km.node) if isinstance(n, ast.For)]
     done = False
     for lp in loops:
-        if not any(r == ("param", "gene_list") for r in eff.roots_of(km, lp.iter)) and "gene_list" not in norm(lp.iter):
+        if not any(t == ("cls", "Gene") for t in ctx.inf.iter_elem_types(km, lp.iter)) and "gene" not in norm(lp.iter).lower():
             continue
         var = lp.target.id if isinstance(lp.target, ast.Name) else None
         calls = [n for n in ast.walk(lp) if isinstance(n, ast.Call) and isinstance(n.func, ast.Attribute) and n.func.attr == "knock_out" and norm(n.func.value) == var]
